@@ -707,3 +707,1231 @@ example : ¬ balanced "(a))(".toList := by decide
 
 end C02
 end HedVerif
+
+/-! ## Growth: nesting depth, tag spans = maximal trimmed runs, round trip -/
+
+namespace HedVerif
+open Tok Tree
+
+/-! ### nesting -/
+
+theorem scan_append (d : Nat) (x y : List Bool) :
+    scan d (x ++ y) = (scan d x).bind (fun d' => scan d' y) := by
+  induction x generalizing d with
+  | nil => simp [scan]
+  | cons b bs ih =>
+    cases b with
+    | true => simp only [List.cons_append, scan]; exact ih _
+    | false =>
+      cases d with
+      | zero => simp [scan]
+      | succ d0 => simp only [List.cons_append, scan]; exact ih _
+
+theorem scan_shift (d d' e : Nat) (x : List Bool) (h : scan d x = some d') :
+    scan (d + e) x = some (d' + e) := by
+  induction x generalizing d with
+  | nil => simp [scan] at h ⊢; omega
+  | cons b bs ih =>
+    cases b with
+    | true =>
+      simp only [scan] at h ⊢
+      have := ih (d + 1) h
+      rwa [show d + 1 + e = d + e + 1 by omega] at this
+    | false =>
+      cases d with
+      | zero => simp [scan] at h
+      | succ d0 =>
+        simp only [scan] at h
+        have := ih d0 h
+        rw [show d0 + 1 + e = (d0 + e) + 1 by omega]
+        simpa only [scan] using this
+
+/-- parenthesis depth after the first `i` characters (`none` if it went negative before) -/
+def depthAt (s : Str) (i : Nat) : Option Nat := scan 0 (parens (s.take i))
+
+theorem take_eq_slice (s : Str) (k : Nat) : s.take k = slice s 0 k := by simp [slice]
+
+theorem depthAt_split (s : Str) (a b : Nat) (h : a ≤ b) :
+    depthAt s b = (depthAt s a).bind (fun d => scan d (parens (slice s a b))) := by
+  unfold depthAt
+  rw [take_eq_slice, take_eq_slice, slice_split s 0 a b (Nat.zero_le _) h, parens_append, scan_append]
+
+/-- the depth is the number of '(' minus the number of ')' of the prefix -/
+theorem depthAt_count (s : Str) (i d : Nat) (h : depthAt s i = some d) :
+    (s.take i).count '(' = d + (s.take i).count ')' := by
+  have := scan_counts 0 d (s.take i) h
+  omega
+
+theorem delim_not_space {c : Char} (h : isDelim c = true) : pyIsSpace c = false := by
+  simp [isDelim] at h
+  rcases h with (rfl | rfl) | rfl <;> decide
+
+theorem getElem?_lt_of_some {α} {l : List α} {j : Nat} {c : α} (h : l[j]? = some c) : j < l.length := by
+  rcases Nat.lt_or_ge j l.length with h' | h'
+  · exact h'
+  · simp [List.getElem?_eq_none h'] at h
+
+/-- A non-tag token is blanks around exactly one character, the one at `delimiter_index`. -/
+theorem token_shape (s : Str) (t : Token) (h : TokOK s t) (htag : t.isTag = false) :
+    ∃ ch, ((s.drop t.start).take (t.stop - t.start))[delimIndex ((s.drop t.start).take (t.stop - t.start))]? = some ch ∧
+      s[t.start + delimIndex ((s.drop t.start).take (t.stop - t.start))]? = some ch ∧
+      t.start + delimIndex ((s.drop t.start).take (t.stop - t.start)) < t.stop ∧
+      (∀ k c, t.start ≤ k → k < t.stop →
+        k ≠ t.start + delimIndex ((s.drop t.start).take (t.stop - t.start)) → s[k]? = some c → c = ' ') := by
+  obtain ⟨hlt, hle, hrest⟩ := h
+  simp only [htag, Bool.false_eq_true, ↓reduceIte] at hrest
+  obtain ⟨h1, h2⟩ := hrest
+  have hlen : (slice s t.start t.stop).length = t.stop - t.start := slice_length s _ _ hle
+  have hget : ∀ j, j < t.stop - t.start → (slice s t.start t.stop)[j]? = s[t.start + j]? :=
+    fun j hj => slice_getElem? s _ _ _ hj
+  show ∃ ch, (slice s t.start t.stop)[delimIndex (slice s t.start t.stop)]? = some ch ∧
+      s[t.start + delimIndex (slice s t.start t.stop)]? = some ch ∧
+      t.start + delimIndex (slice s t.start t.stop) < t.stop ∧
+      (∀ k c, t.start ≤ k → k < t.stop →
+        k ≠ t.start + delimIndex (slice s t.start t.stop) → s[k]? = some c → c = ' ')
+  generalize hp : slice s t.start t.stop = p at *
+  unfold delimIndex
+  cases hfi : List.findIdx? (fun c => !pyIsSpace c) p with
+  | none =>
+    simp only [Option.getD_none, Nat.add_zero]
+    have hall : ∀ x ∈ p, pyIsSpace x = true := by
+      have := List.findIdx?_eq_none_iff.mp hfi
+      intro x hx; simpa using this x hx
+    have h0 : 0 < p.length := by omega
+    refine ⟨p[0], List.getElem?_eq_getElem h0, ?_, by omega, ?_⟩
+    · have := hget 0 (by omega)
+      simp only [Nat.add_zero] at this
+      rw [← this]; exact List.getElem?_eq_getElem h0
+    · intro k c a b _ d
+      rcases h1 k c a b d with r | r
+      · exact r
+      · exfalso
+        have hk : p[k - t.start]? = some c := by
+          rw [hget (k - t.start) (by omega)]; rw [show t.start + (k - t.start) = k by omega]; exact d
+        have := hall c (List.mem_of_getElem? hk)
+        rw [delim_not_space r] at this; cases this
+  | some j =>
+    simp only [Option.getD_some]
+    obtain ⟨hj, hjp, _⟩ := List.findIdx?_eq_some_iff_getElem.mp hfi
+    have hjs : s[t.start + j]? = some p[j] := by
+      rw [← hget j (by omega)]; exact List.getElem?_eq_getElem hj
+    have hnb : p[j] ≠ ' ' := by
+      intro e; rw [e] at hjp; revert hjp; decide
+    refine ⟨p[j], List.getElem?_eq_getElem hj, hjs, by omega, ?_⟩
+    intro k c a b ne d
+    by_cases hc : c = ' '
+    · exact hc
+    · exfalso
+      have := h2 k (t.start + j) c p[j] a b (by omega) (by omega) d hjs hc hnb
+      exact ne this
+
+theorem parens_slice_blank (s : Str) (a b : Nat)
+    (h : ∀ k c, a ≤ k → k < b → s[k]? = some c → c = ' ') : parens (slice s a b) = [] := by
+  apply parens_blank
+  intro c hc
+  obtain ⟨j, hj⟩ := List.getElem?_of_mem hc
+  have hjl := getElem?_lt_of_some hj
+  have hjb : j < b - a := by
+    have : (slice s a b).length ≤ b - a := by unfold slice; simp; omega
+    omega
+  rw [slice_getElem? s a b j hjb] at hj
+  exact h (a + j) c (by omega) (by omega) hj
+
+def Node.start : Node → Nat
+  | .tag a _ => a
+  | .group a _ _ => a
+
+def Node.stop : Node → Nat
+  | .tag _ b => b
+  | .group _ b _ => b
+
+mutual
+/-- `NodeNest s d n`: node `n` of the tree of `s` sits at parenthesis depth `d`; a group runs from a
+'(' to its matching ')' (the text strictly between them is balanced), its children are inside it, one
+level deeper. -/
+def NodeNest (s : Str) : Nat → Node → Prop
+  | d, .tag a b => depthAt s a = some d ∧ depthAt s b = some d ∧ a < b ∧ b ≤ s.length
+  | d, .group a b kids =>
+      s[a]? = some '(' ∧ s[b - 1]? = some ')' ∧ a + 1 < b ∧ depthAt s a = some d ∧
+      balanced (slice s (a + 1) (b - 1)) ∧
+      (∀ k ∈ kids, a < k.start ∧ k.stop < b) ∧ ListNest s (d + 1) kids
+def ListNest (s : Str) : Nat → List Node → Prop
+  | _, [] => True
+  | d, n :: ns => NodeNest s d n ∧ ListNest s d ns
+end
+
+theorem listNest_iff (s : Str) (d : Nat) (l : List Node) :
+    ListNest s d l ↔ ∀ n ∈ l, NodeNest s d n := by
+  induction l with
+  | nil => simp [ListNest]
+  | cons n ns ih => simp [ListNest, ih]
+
+/-- invariant of the group stack at token boundary `p`; `idx` = number of frames above -/
+def FramesOK (s : Str) (p : Nat) : Nat → List Frame → Prop
+  | _, [] => True
+  | idx, f :: fs =>
+      s[f.start]? = some '(' ∧ f.start < p ∧ depthAt s f.start = some fs.length ∧
+      scan 0 (parens (slice s (f.start + 1) p)) = some idx ∧
+      (∀ n ∈ f.kids, NodeNest s (fs.length + 1) n ∧ f.start < n.start ∧ n.stop ≤ p) ∧
+      (∀ f2 ∈ fs, f2.start < f.start) ∧
+      FramesOK s p (idx + 1) fs
+
+theorem frames_lt (s : Str) (p idx : Nat) (fs : List Frame) (h : FramesOK s p idx fs) :
+    ∀ f ∈ fs, f.start < p := by
+  induction fs generalizing idx with
+  | nil => simp
+  | cons f fs ih =>
+    intro g hg
+    simp only [List.mem_cons] at hg
+    rcases hg with rfl | hg
+    · exact h.2.1
+    · exact ih _ h.2.2.2.2.2.2 g hg
+
+theorem frames_advance (s : Str) (p p' : Nat) (hp : p ≤ p') (fs : List Frame) (idx idx' : Nat)
+    (h : FramesOK s p idx fs)
+    (hs : ∀ k, scan (idx + k) (parens (slice s p p')) = some (idx' + k)) :
+    FramesOK s p' idx' fs := by
+  induction fs generalizing idx idx' with
+  | nil => trivial
+  | cons f fs ih =>
+    obtain ⟨h1, h2, h3, h4, h5, h6, h7⟩ := h
+    refine ⟨h1, by omega, h3, ?_, ?_, h6, ?_⟩
+    · rw [slice_split s (f.start + 1) p p' (by omega) hp, parens_append, scan_append, h4]
+      simpa using hs 0
+    · intro n hn
+      obtain ⟨a, b, c⟩ := h5 n hn
+      exact ⟨a, b, by omega⟩
+    · apply ih (idx + 1) (idx' + 1) h7
+      intro k
+      have := hs (k + 1)
+      rwa [show idx + (k + 1) = idx + 1 + k by omega, show idx' + (k + 1) = idx' + 1 + k by omega] at this
+
+theorem frames_addkid (s : Str) (p idx : Nat) (f : Frame) (fs : List Frame) (n : Node)
+    (h : FramesOK s p idx (f :: fs)) (hn : NodeNest s (fs.length + 1) n)
+    (h1 : f.start < n.start) (h2 : n.stop ≤ p) :
+    FramesOK s p idx ({ f with kids := n :: f.kids } :: fs) := by
+  obtain ⟨a1, a2, a3, a4, a5, a6, a7⟩ := h
+  refine ⟨a1, a2, a3, a4, ?_, a6, a7⟩
+  intro m hm
+  simp only [List.mem_cons] at hm
+  rcases hm with rfl | hm
+  · exact ⟨hn, h1, h2⟩
+  · exact a5 m hm
+
+theorem tiles_le (toks : List Token) (a b : Nat) (h : Tiles toks a b) : a ≤ b := by
+  induction toks generalizing a with
+  | nil => simp only [Tiles] at h; omega
+  | cons u us ih =>
+    obtain ⟨g1, g2, g3⟩ := h
+    have := ih _ g3
+    omega
+
+theorem buildToks_nest (s : Str) (toks : List Token) :
+    ∀ (p : Nat) (top : List Node) (stack : List Frame),
+    Tiles toks p s.length → (∀ t ∈ toks, TokOK s t) →
+    depthAt s p = some stack.length → FramesOK s p 0 stack →
+    (∀ n ∈ top, NodeNest s 0 n) →
+    ∀ r, buildToks s top stack toks = .ok r → ∀ n ∈ r, NodeNest s 0 n := by
+  induction toks with
+  | nil =>
+    intro p top stack hT _ _ _ htop r hr
+    cases stack with
+    | nil => simp [buildToks] at hr; subst hr; simpa using htop
+    | cons f fs => simp [buildToks] at hr
+  | cons t ts ih =>
+    intro p top stack hT hok hd hfr htop r hr
+    obtain ⟨hs, hlt, hT'⟩ := hT
+    subst hs
+    have htok := hok t (by simp)
+    have hok' : ∀ u ∈ ts, TokOK s u := fun u hu => hok u (by simp [hu])
+    have hpar := parens_token s t htok
+    have hdstop : ∀ B, parens (slice s t.start t.stop) = B →
+        depthAt s t.stop = scan stack.length B := by
+      intro B hB; rw [depthAt_split s t.start t.stop (by omega), hd, hB]; rfl
+    by_cases htag : t.isTag = true
+    · have hp0 : parens (slice s t.start t.stop) = [] := by rw [hpar]; simp [tokParen, htag]
+      have hd' : depthAt s t.stop = some stack.length := by rw [hdstop [] hp0]; rfl
+      have hfr' : FramesOK s t.stop 0 stack :=
+        frames_advance s t.start t.stop (by omega) stack 0 0 hfr (by intro k; rw [hp0]; rfl)
+      have hnode : NodeNest s stack.length (Node.tag t.start t.stop) := by
+        simp only [NodeNest]; exact ⟨hd, hd', hlt, htok.2.1⟩
+      cases stack with
+      | nil =>
+        simp only [buildToks, stepTok, htag, ↓reduceIte] at hr
+        refine ih t.stop _ _ hT' hok' hd' hfr' ?_ r hr
+        intro n hn
+        simp only [List.mem_cons] at hn
+        rcases hn with rfl | hn
+        · exact hnode
+        · exact htop n hn
+      | cons f fs =>
+        simp only [buildToks, stepTok, htag, ↓reduceIte] at hr
+        refine ih t.stop _ _ hT' hok' (by simpa using hd') ?_ htop r hr
+        exact frames_addkid s t.stop 0 f fs _ hfr' (by simpa using hnode)
+          (by simpa [Node.start] using hfr.2.1) (by simp [Node.stop])
+    · have htag' : t.isTag = false := by simpa using htag
+      obtain ⟨ch, hch, hsq, hq, hblank⟩ := token_shape s t htok htag'
+      have hB : parens (slice s t.start t.stop) = (parenOf ch).toList := by
+        rw [hpar]; simp [tokParen, htag', hch]
+      generalize hqdef : t.start + delimIndex ((s.drop t.start).take (t.stop - t.start)) = q at *
+      have hpq : t.start ≤ q := by omega
+      have hpre : parens (slice s t.start q) = [] :=
+        parens_slice_blank s _ _ (fun k c a b d => hblank k c a (by omega) (by omega) d)
+      have hpost : parens (slice s (q + 1) t.stop) = [] :=
+        parens_slice_blank s _ _ (fun k c a b d => hblank k c (by omega) b (by omega) d)
+      have hdq : depthAt s q = some stack.length := by
+        rw [depthAt_split s t.start q hpq, hd, hpre]; rfl
+      by_cases ho : ch = '('
+      · subst ho
+        have hd' : depthAt s t.stop = some (stack.length + 1) := by
+          rw [hdstop _ hB]; rfl
+        simp only [buildToks, stepTok, htag', Bool.false_eq_true, ↓reduceIte, hch,
+          beq_self_eq_true, hqdef] at hr
+        refine ih t.stop _ _ hT' hok' (by simpa using hd') ?_ htop r hr
+        refine ⟨hsq, hq, hdq, by rw [hpost]; rfl, by simp, ?_, ?_⟩
+        · intro f2 hf2
+          have := frames_lt s _ _ _ hfr f2 hf2
+          show f2.start < q
+          omega
+        · apply frames_advance s t.start t.stop (by omega) stack 0 1 hfr
+          intro k; rw [hB]
+          simp [parenOf, scan]; omega
+      · by_cases hcl : ch = ')'
+        · subst hcl
+          have h2 : (')' == '(') = false := by decide
+          have hBf : parens (slice s t.start t.stop) = [false] := by rw [hB]; rfl
+          cases stack with
+          | nil =>
+            simp [buildToks, stepTok, htag', hch, h2] at hr
+          | cons f fs =>
+            obtain ⟨a1, a2, a3, a4, a5, a6, a7⟩ := hfr
+            have hd' : depthAt s t.stop = some fs.length := by
+              rw [hdstop _ hBf]; rfl
+            have hg : NodeNest s fs.length (Node.group f.start (q + 1) f.kids.reverse) := by
+              simp only [NodeNest]
+              refine ⟨a1, by simpa using hsq, by omega, a3, ?_, ?_, ?_⟩
+              · unfold balanced
+                rw [show q + 1 - 1 = q by omega,
+                  slice_split s (f.start + 1) t.start q (by omega) hpq, parens_append, hpre,
+                  List.append_nil]
+                exact a4
+              · intro k hk
+                have := a5 k (by simpa using hk)
+                omega
+              · exact (listNest_iff _ _ _).mpr (fun n hn => (a5 n (by simpa using hn)).1)
+            cases fs with
+            | nil =>
+              simp only [buildToks, stepTok, htag', Bool.false_eq_true, ↓reduceIte, hch, h2,
+                beq_self_eq_true, hqdef] at hr
+              refine ih t.stop _ _ hT' hok' hd' trivial ?_ r hr
+              intro n hn
+              simp only [List.mem_cons] at hn
+              rcases hn with rfl | hn
+              · exact hg
+              · exact htop n hn
+            | cons f2 fs2 =>
+              simp only [buildToks, stepTok, htag', Bool.false_eq_true, ↓reduceIte, hch, h2,
+                beq_self_eq_true, hqdef] at hr
+              refine ih t.stop _ _ hT' hok' (by simpa using hd') ?_ htop r hr
+              have hadv : FramesOK s t.stop 0 (f2 :: fs2) := by
+                apply frames_advance s t.start t.stop (by omega) _ 1 0 a7
+                intro k; rw [hBf, show 1 + k = k + 1 by omega]
+                simp [scan]
+              exact frames_addkid s t.stop 0 f2 fs2 _ hadv (by simpa using hg)
+                (by simpa [Node.start] using a6 f2 (by simp)) (by simp [Node.stop]; omega)
+        · have h1 : parenOf ch = none := by simp [parenOf, ho, hcl]
+          have h2 : (ch == '(') = false := by simpa using ho
+          have h3 : (ch == ')') = false := by simpa using hcl
+          have hp0 : parens (slice s t.start t.stop) = [] := by rw [hB, h1]; rfl
+          have hd' : depthAt s t.stop = some stack.length := by rw [hdstop [] hp0]; rfl
+          have hfr' : FramesOK s t.stop 0 stack :=
+            frames_advance s t.start t.stop (by omega) stack 0 0 hfr (by intro k; rw [hp0]; rfl)
+          simp only [buildToks, stepTok, htag', Bool.false_eq_true, ↓reduceIte, hch, h2, h3] at hr
+          exact ih t.stop _ _ hT' hok' hd' hfr' htop r hr
+
+theorem depthAt_zero (s : Str) : depthAt s 0 = some 0 := by simp [depthAt, parens, scan]
+
+/-- a group's own text is balanced and the depth is back at the entry depth right after it -/
+theorem group_balanced (s : Str) (d a b : Nat) (kids : List Node)
+    (h : NodeNest s d (.group a b kids)) :
+    balanced (slice s a b) ∧ depthAt s b = some d := by
+  simp only [NodeNest] at h
+  obtain ⟨h1, h2, h3, h4, h5, _, _⟩ := h
+  have e1 : parens (slice s a (a + 1)) = [true] := by
+    have : slice s a (a + 1) = ['('] := by
+      unfold slice
+      rw [show a + 1 - a = 1 by omega, List.take_one, List.head?_drop, h1]; rfl
+    rw [this]; rfl
+  have e2 : parens (slice s (b - 1) b) = [false] := by
+    have : slice s (b - 1) b = [')'] := by
+      unfold slice
+      rw [show b - (b - 1) = 1 by omega, List.take_one, List.head?_drop, h2]; rfl
+    rw [this]; rfl
+  have e : parens (slice s a b) = true :: (parens (slice s (a + 1) (b - 1)) ++ [false]) := by
+    rw [slice_split s a (a + 1) b (by omega) (by omega),
+      slice_split s (a + 1) (b - 1) b (by omega) (by omega), parens_append, parens_append, e1, e2]
+    rfl
+  have hin : scan 1 (parens (slice s (a + 1) (b - 1)) ++ [false]) = some 0 := by
+    rw [scan_append, show (1 : Nat) = 0 + 1 from rfl, scan_shift 0 0 1 _ h5]
+    rfl
+  constructor
+  · unfold balanced; rw [e]; exact hin
+  · rw [depthAt_split s a b (by omega), h4, e]
+    show scan (d + 1) _ = some d
+    have := scan_shift 1 0 d _ hin
+    rwa [show 1 + d = d + 1 by omega, Nat.zero_add] at this
+
+namespace C02
+
+/-- **Nesting.** For a balanced text the tree exists and every node sits at its parenthesis depth:
+a tag at tree depth `d` starts (and ends) at parenthesis depth `d`; a group runs from a '(' at depth
+`d` to its matching ')' (the text strictly between is balanced) and contains its children, which are
+one level deeper. -/
+theorem nesting_depth (s : Str) (h : balanced s) :
+    ∃ r, build s = .ok r ∧ construct s = r ∧ ListNest s 0 r := by
+  obtain ⟨r, hr⟩ := (build_ok_iff_balanced s).mpr h
+  refine ⟨r, hr, by simp [construct, hr], (listNest_iff _ _ _).mpr ?_⟩
+  exact buildToks_nest s (split s) 0 [] [] (tiling s).1 (tiling s).2 (depthAt_zero s) trivial
+    (by simp) r hr
+
+/-- reading of `depthAt`: the depth of a tag is (#'(' − #')') of the text before it -/
+theorem nesting_depth_count (s : Str) (d a b : Nat) (h : NodeNest s d (.tag a b)) :
+    (s.take a).count '(' = d + (s.take a).count ')' := by
+  simp only [NodeNest] at h
+  exact depthAt_count s a d h.1
+
+/-- a group span is itself a balanced text and closes exactly at its last character -/
+theorem nesting_group_span (s : Str) (d a b : Nat) (kids : List Node)
+    (h : NodeNest s d (.group a b kids)) :
+    s[a]? = some '(' ∧ s[b - 1]? = some ')' ∧ balanced (slice s a b) ∧
+      balanced (slice s (a + 1) (b - 1)) ∧ depthAt s a = some d ∧ depthAt s b = some d := by
+  have hb := group_balanced s d a b kids h
+  simp only [NodeNest] at h
+  exact ⟨h.1, h.2.1, hb.1, h.2.2.2.2.1, h.2.2.2.1, hb.2⟩
+
+example : ListNest "a, ( b ,(c), ),d".toList 0 (construct "a, ( b ,(c), ),d".toList) := by
+  obtain ⟨r, _, h2, h3⟩ := nesting_depth "a, ( b ,(c), ),d".toList (by decide)
+  rw [h2]; exact h3
+
+end C02
+
+end HedVerif
+
+namespace HedVerif
+open Tok Tree
+
+/-! ### tags = maximal trimmed runs -/
+
+/-- split at the delimiters `,()` (like `re.split('[,()]', s)`): first piece and the other pieces -/
+def splitDelim : Str → Str × List Str
+  | [] => ([], [])
+  | c :: cs =>
+    if isDelim c then ([], (splitDelim cs).1 :: (splitDelim cs).2)
+    else (c :: (splitDelim cs).1, (splitDelim cs).2)
+
+/-- the span of piece `p` starting at offset `o`, with the U+0020 at both ends removed;
+`none` when the piece is empty or all blank -/
+def trimSpan (o : Nat) (p : Str) : Option (Nat × Nat) :=
+  let lead := (p.takeWhile (· == ' ')).length
+  let trail := (p.reverse.takeWhile (· == ' ')).length
+  if lead = p.length then none else some (o + lead, o + p.length - trail)
+
+def tagSpecFrom : Nat → List Str → List (Nat × Nat)
+  | _, [] => []
+  | o, p :: ps => (trimSpan o p).toList ++ tagSpecFrom (o + p.length + 1) ps
+
+/-- the declarative description of the tag spans -/
+def tagSpec (s : Str) : List (Nat × Nat) :=
+  tagSpecFrom 0 ((splitDelim s).1 :: (splitDelim s).2)
+
+/-- one-pass form of `tagSpec`: `cur` = (first non-blank, one past the last non-blank) of the
+current piece -/
+def tagScan : Option (Nat × Nat) → Nat → Str → List (Nat × Nat)
+  | cur, _, [] => cur.toList
+  | cur, i, c :: cs =>
+    if isDelim c then cur.toList ++ tagScan none (i + 1) cs
+    else if c == ' ' then tagScan cur (i + 1) cs
+    else tagScan (some ((cur.map (·.1)).getD i, i + 1)) (i + 1) cs
+
+theorem trimSpan_nil (o : Nat) : trimSpan o [] = none := by simp [trimSpan]
+
+theorem lead_le (p : Str) : (p.takeWhile (· == ' ')).length ≤ p.length :=
+  (List.takeWhile_sublist _).length_le
+
+theorem trimSpan_snoc_blank (o : Nat) (p : Str) : trimSpan o (p ++ [' ']) = trimSpan o p := by
+  unfold trimSpan
+  have h1 := lead_le p
+  have h2 := lead_le p.reverse
+  simp only [List.takeWhile_append, List.reverse_append, List.reverse_cons, List.reverse_nil,
+    List.nil_append, List.cons_append, List.takeWhile_cons, beq_self_eq_true, ↓reduceIte,
+    List.length_append, List.length_cons, List.length_nil, List.takeWhile_nil, List.length_reverse] at *
+  split <;> split <;> simp_all <;> omega
+
+theorem trimSpan_snoc_nonblank (o : Nat) (p : Str) (c : Char) (hc : c ≠ ' ') :
+    trimSpan o (p ++ [c]) =
+      some (((trimSpan o p).map (·.1)).getD (o + p.length), o + p.length + 1) := by
+  unfold trimSpan
+  have h1 := lead_le p
+  have hc' : (c == ' ') = false := by simpa using hc
+  simp only [List.takeWhile_append, List.reverse_append, List.reverse_cons, List.reverse_nil,
+    List.nil_append, List.cons_append, List.takeWhile_cons, hc', Bool.false_eq_true, ↓reduceIte,
+    List.length_append, List.length_cons, List.length_nil] at *
+  split <;> split <;> simp_all <;> omega
+
+theorem tagScan_eq_spec (cs : Str) : ∀ (pre : Str) (o : Nat),
+    tagScan (trimSpan o pre) (o + pre.length) cs =
+      tagSpecFrom o ((pre ++ (splitDelim cs).1) :: (splitDelim cs).2) := by
+  induction cs with
+  | nil => intro pre o; simp [tagScan, splitDelim, tagSpecFrom]
+  | cons c cs ih =>
+    intro pre o
+    by_cases hd : isDelim c = true
+    · have := ih [] (o + pre.length + 1)
+      simp only [trimSpan_nil, List.length_nil, Nat.add_zero, List.nil_append] at this
+      simp [tagScan, splitDelim, hd, tagSpecFrom, this]
+    · have hd' : isDelim c = false := by simpa using hd
+      by_cases hb : c = ' '
+      · subst hb
+        have := ih (pre ++ [' ']) o
+        rw [trimSpan_snoc_blank] at this
+        simp only [List.length_append, List.length_cons, List.length_nil, Nat.zero_add,
+          List.append_assoc, List.cons_append, List.nil_append] at this
+        simp only [tagScan, splitDelim, hd', Bool.false_eq_true, ↓reduceIte, beq_self_eq_true]
+        rw [← this]; rfl
+      · have hb' : (c == ' ') = false := by simpa using hb
+        have := ih (pre ++ [c]) o
+        rw [trimSpan_snoc_nonblank o pre c hb] at this
+        simp only [List.length_append, List.length_cons, List.length_nil, Nat.zero_add,
+          List.append_assoc, List.cons_append, List.nil_append] at this
+        simp only [tagScan, splitDelim, hd', hb', Bool.false_eq_true, ↓reduceIte]
+        rw [← this]; rfl
+
+/-- spans of the tag tokens -/
+def tagsOf (l : List Token) : List (Nat × Nat) :=
+  (l.filter (·.isTag)).map (fun t => (t.start, t.stop))
+
+theorem tagsOf_append (a b : List Token) : tagsOf (a ++ b) = tagsOf a ++ tagsOf b := by
+  simp [tagsOf]
+
+theorem finish_tags (st : St) (n : Nat) :
+    tagsOf (finish st n) = tagsOf st.out.reverse ++
+      (match st.tagStart with | some ts => [(ts, n - st.spacing)] | none => []) := by
+  unfold finish
+  cases st.lastEnd <;> cases st.tagStart <;> simp only [] <;> (repeat' split) <;>
+    simp [tagsOf]
+
+/-- abstraction relation between the tokenizer state and the `tagScan` state -/
+def TagRel (st : St) (i : Nat) (cur : Option (Nat × Nat)) : Prop :=
+  (st.found = true ∧ st.tagStart = none ∧ cur = none) ∨
+  (st.found = false ∧ ∃ ts, st.tagStart = some ts ∧ cur = some (ts, i - st.spacing))
+
+theorem step_tags (st : St) (i : Nat) (c : Char) (cur : Option (Nat × Nat))
+    (h : TagRel st i cur) :
+    TagRel (step st i c) (i + 1)
+        (if isDelim c then none else if c == ' ' then cur
+         else some ((cur.map (·.1)).getD i, i + 1)) ∧
+      tagsOf (step st i c).out.reverse =
+        tagsOf st.out.reverse ++ (if isDelim c then cur.toList else []) := by
+  by_cases hb : c = ' '
+  · subst hb
+    have : isDelim ' ' = false := by decide
+    simp only [step, beq_self_eq_true, ↓reduceIte, this, Bool.false_eq_true, List.append_nil,
+      and_true]
+    rcases h with ⟨h1, h2, h3⟩ | ⟨h1, ts, h2, h3⟩
+    · exact Or.inl ⟨h1, h2, h3⟩
+    · refine Or.inr ⟨h1, ts, h2, ?_⟩
+      rw [h3]; simp
+  · have hb' : (c == ' ') = false := by simpa using hb
+    by_cases hd : isDelim c = true
+    · simp only [step, hb', Bool.false_eq_true, ↓reduceIte, hd]
+      rcases h with ⟨h1, h2, h3⟩ | ⟨h1, ts, h2, h3⟩
+      · subst h3
+        simp only [h1, ↓reduceIte]
+        cases st.lastEnd with
+        | none => exact ⟨Or.inl ⟨rfl, h2, rfl⟩, by simp⟩
+        | some le =>
+          simp only []
+          split
+          · exact ⟨Or.inl ⟨rfl, h2, rfl⟩, by simp [tagsOf]⟩
+          · exact ⟨Or.inl ⟨rfl, h2, rfl⟩, by simp⟩
+      · subst h3
+        simp only [h1, Bool.false_eq_true, ↓reduceIte, h2]
+        exact ⟨Or.inl ⟨rfl, rfl, rfl⟩, by simp [tagsOf]⟩
+    · have hd' : isDelim c = false := by simpa using hd
+      simp only [step, hb', Bool.false_eq_true, ↓reduceIte, hd', List.append_nil]
+      rcases h with ⟨h1, h2, h3⟩ | ⟨h1, ts, h2, h3⟩
+      · subst h3
+        simp only [h1, ↓reduceIte]
+        cases st.lastEnd with
+        | none => exact ⟨Or.inr ⟨rfl, i, by simp [h2], by simp⟩, rfl⟩
+        | some le =>
+          simp only []
+          split
+          · exact ⟨Or.inr ⟨rfl, i, by simp [h2], by simp⟩, by simp [tagsOf]⟩
+          · exact ⟨Or.inr ⟨rfl, i, by simp [h2], by simp⟩, rfl⟩
+      · subst h3
+        simp only [h1, Bool.false_eq_true, ↓reduceIte, h2]
+        exact ⟨Or.inr ⟨rfl, ts, rfl, by simp⟩, trivial⟩
+
+theorem run_tags (cs : Str) : ∀ (st : St) (i : Nat) (cur : Option (Nat × Nat)),
+    TagRel st i cur →
+    tagsOf (finish (run st i cs) (i + cs.length)) = tagsOf st.out.reverse ++ tagScan cur i cs := by
+  induction cs with
+  | nil =>
+    intro st i cur h
+    simp only [run, List.length_nil, Nat.add_zero, finish_tags, tagScan]
+    rcases h with ⟨_, h2, h3⟩ | ⟨_, ts, h2, h3⟩ <;> simp [h2, h3]
+  | cons c cs ih =>
+    intro st i cur h
+    obtain ⟨hr, ht⟩ := step_tags st i c cur h
+    have := ih (step st i c) (i + 1) _ hr
+    simp only [run, List.length_cons, tagScan]
+    rw [show i + (cs.length + 1) = i + 1 + cs.length by omega, this, ht]
+    by_cases hd : isDelim c = true
+    · simp [hd]
+    · have hd' : isDelim c = false := by simpa using hd
+      by_cases hb : (c == ' ') = true
+      · simp [hd', hb]
+      · simp [hd', hb]
+
+namespace C02
+
+/-- **Tags.** The tag tokens of `split_hed_string` are exactly, in order, the maximal runs of
+non-delimiter characters that contain a non-blank, with the U+0020 at both ends removed. -/
+theorem tags_are_maximal_trimmed_runs (s : Str) :
+    ((split s).filter (·.isTag)).map (fun t => (t.start, t.stop)) = tagSpec s := by
+  have h := run_tags s {} 0 none (Or.inl ⟨rfl, rfl, rfl⟩)
+  have g := tagScan_eq_spec s [] 0
+  simp only [trimSpan_nil, List.length_nil, Nat.add_zero, List.nil_append] at g
+  simp only [Nat.zero_add] at h
+  unfold tagSpec
+  rw [← g]
+  simpa [tagsOf, split, finalSt] using h
+
+example : tagSpec " a b , (c,  ) ,,d ".toList = [(1, 4), (8, 9), (16, 17)] := by decide
+example : (split " a b , (c,  ) ,,d ".toList).length = 11 := by decide
+
+end C02
+
+end HedVerif
+
+namespace HedVerif
+open Tok Tree
+
+/-! ### round trip: parsing a printed forest gives the forest back -/
+
+/-- abstract forest: a tag carries its text, a group its children -/
+inductive ATree where
+  | tag (text : Str)
+  | group (kids : List ATree)
+deriving Repr, Inhabited
+
+mutual
+/-- print like `HedGroup.__str__`: children joined by ",", groups wrapped in "(" ")" -/
+def renderNode : ATree → Str
+  | .tag w => w
+  | .group kids => '(' :: (renderList kids ++ [')'])
+def renderList : List ATree → Str
+  | [] => []
+  | [n] => renderNode n
+  | n :: m :: ns => renderNode n ++ (',' :: renderList (m :: ns))
+end
+
+/-- a printable tag text: non-empty, no delimiter, no blank at either end -/
+def ValidText (w : Str) : Prop :=
+  w ≠ [] ∧ (∀ c ∈ w, isDelim c = false) ∧ w.head? ≠ some ' ' ∧ w.getLast? ≠ some ' '
+
+mutual
+def ValidNode : ATree → Prop
+  | .tag w => ValidText w
+  | .group kids => ValidList kids
+def ValidList : List ATree → Prop
+  | [] => True
+  | n :: ns => ValidNode n ∧ ValidList ns
+end
+
+mutual
+/-- the expected tokens of a printed node starting at offset `i` -/
+def toksNode : Nat → ATree → List Token
+  | i, .tag w => [⟨true, i, i + w.length⟩]
+  | i, .group kids =>
+      ⟨false, i, i + 1⟩ :: (toksList (i + 1) kids ++
+        [⟨false, i + 1 + (renderList kids).length, i + 1 + (renderList kids).length + 1⟩])
+def toksList : Nat → List ATree → List Token
+  | _, [] => []
+  | i, [n] => toksNode i n
+  | i, n :: m :: ns =>
+      toksNode i n ++ (⟨false, i + (renderNode n).length, i + (renderNode n).length + 1⟩ ::
+        toksList (i + (renderNode n).length + 1) (m :: ns))
+end
+
+mutual
+/-- the expected parse tree of a printed node starting at offset `i` -/
+def nodeOf : Nat → ATree → Node
+  | i, .tag w => .tag i (i + w.length)
+  | i, .group kids => .group i (i + 1 + (renderList kids).length + 1) (nodesOf (i + 1) kids)
+def nodesOf : Nat → List ATree → List Node
+  | _, [] => []
+  | i, n :: ns => nodeOf i n :: nodesOf (i + (renderNode n).length + 1) ns
+end
+
+theorem run_append (a b : Str) : ∀ (st : St) (i : Nat),
+    run st i (a ++ b) = run (run st i a) (i + a.length) b := by
+  induction a with
+  | nil => intro st i; simp [run]
+  | cons c cs ih =>
+    intro st i
+    simp only [List.cons_append, run, List.length_cons, ih]
+    rw [show i + 1 + cs.length = i + (cs.length + 1) by omega]
+
+/-- state between items: after a delimiter (or at the very start) -/
+def DSt (st : St) (i : Nat) : Prop :=
+  st.found = true ∧ st.tagStart = none ∧ ∃ le, st.lastEnd = some le ∧ (le = i ∨ le + 1 = i)
+
+/-- state right after a tag text (no trailing blank) -/
+def TSt (st : St) : Prop :=
+  st.found = false ∧ st.lastEnd = none ∧ st.spacing = 0 ∧ ∃ ts, st.tagStart = some ts
+
+theorem step_delim (st : St) (i : Nat) (c : Char) (hd : isDelim c = true)
+    (h : DSt st i ∨ TSt st) :
+    DSt (step st i c) (i + 1) ∧ finish (step st i c) (i + 1) = finish st i ++ [⟨false, i, i + 1⟩] := by
+  have hb : (c == ' ') = false := by simpa using isDelim_ne_space hd
+  simp only [step, hb, Bool.false_eq_true, ↓reduceIte, hd]
+  rcases h with ⟨h1, h2, le, h3, h4⟩ | ⟨h1, h2, h3, ts, h4⟩
+  · simp only [h1, ↓reduceIte, h3]
+    by_cases hle : le = i
+    · subst hle
+      simp [DSt, finish, h2, h3]
+    · have : (le != i) = true := by simpa using hle
+      have hle' : ¬ i = le := fun e => hle e.symm
+      simp [this, DSt, finish, h2, h3, hle']
+  · simp [h1, h4, DSt, finish, h2, h3]
+
+/-- trailing-blank counter of the tokenizer over a delimiter-free stretch -/
+def trailSp : Nat → Str → Nat
+  | sp, [] => sp
+  | sp, c :: cs => if c == ' ' then trailSp (sp + 1) cs else trailSp 0 cs
+
+theorem trailSp_zero (u : Str) : ∀ (sp : Nat) (c : Char), u.getLast? = some c → c ≠ ' ' →
+    trailSp sp u = 0 := by
+  induction u with
+  | nil => intro sp c h; simp at h
+  | cons a r ih =>
+    intro sp c h hc
+    cases r with
+    | nil =>
+      simp at h; subst h
+      have : (a == ' ') = false := by simpa using hc
+      simp [trailSp, this]
+    | cons b r' =>
+      have h' : (b :: r').getLast? = some c := by simpa [List.getLast?_cons_cons] using h
+      simp only [trailSp]
+      split
+      · exact ih _ c h' hc
+      · exact ih _ c h' hc
+
+/-- inside a tag, non-delimiter characters only move the trailing-blank counter -/
+theorem run_tagchars (u : Str) : ∀ (st : St) (i : Nat), st.found = false →
+    (∃ ts, st.tagStart = some ts) → (∀ c ∈ u, isDelim c = false) →
+    run st i u = { st with spacing := trailSp st.spacing u } := by
+  induction u with
+  | nil => intro st i _ _ _; simp [run, trailSp]
+  | cons c cs ih =>
+    intro st i hf hts hu
+    obtain ⟨ts, hts⟩ := hts
+    have hd : isDelim c = false := hu c (by simp)
+    have hu' : ∀ x ∈ cs, isDelim x = false := fun x hx => hu x (by simp [hx])
+    simp only [run, trailSp]
+    by_cases hb : (c == ' ') = true
+    · have : step st i c = { st with spacing := st.spacing + 1 } := by simp [step, hb]
+      rw [this, ih { st with spacing := st.spacing + 1 } (i + 1) hf ⟨ts, hts⟩ hu']
+      simp [hb]
+    · have hb' : (c == ' ') = false := by simpa using hb
+      have : step st i c = { st with spacing := 0 } := by
+        cases st
+        simp_all [step]
+      rw [this, ih { st with spacing := 0 } (i + 1) hf ⟨ts, hts⟩ hu']
+      simp [hb']
+
+theorem run_text (w : Str) (hw : ValidText w) (st : St) (i : Nat) (h : DSt st i) :
+    TSt (run st i w) ∧
+      finish (run st i w) (i + w.length) = finish st i ++ [⟨true, i, i + w.length⟩] := by
+  obtain ⟨hne, hnd, hhd, hlast⟩ := hw
+  obtain ⟨h1, h2, le, h3, h4⟩ := h
+  cases w with
+  | nil => exact absurd rfl hne
+  | cons c u =>
+    have hd : isDelim c = false := hnd c (by simp)
+    have hb : (c == ' ') = false := by simpa using hhd
+    have hu : ∀ x ∈ u, isDelim x = false := fun x hx => hnd x (by simp [hx])
+    have hsp : trailSp 0 u = 0 := by
+      cases u with
+      | nil => rfl
+      | cons b r =>
+        cases hl : (b :: r).getLast? with
+        | none => simp at hl
+        | some x =>
+          apply trailSp_zero _ 0 x hl
+          intro e; subst e
+          apply hlast
+          simpa [List.getLast?_cons_cons] using hl
+    simp only [run]
+    by_cases hle : le = i
+    · subst hle
+      have hs : step st le c = { st with found := false, spacing := 0, lastEnd := none, tagStart := some le } := by
+        simp [step, hb, hd, h1, h3, h2]
+      rw [hs, run_tagchars u _ _ rfl ⟨le, rfl⟩ hu]
+      simp [TSt, finish, hsp, h2, h3]
+    · have hle' : ¬ i = le := fun e => hle e.symm
+      have : (le != i) = true := by simpa using hle
+      have hs : step st i c =
+          { st with found := false, spacing := 0, lastEnd := none, tagStart := some i, out := ⟨false, le, i⟩ :: st.out } := by
+        simp [step, hb, hd, h1, h3, h2, this]
+      rw [hs, run_tagchars u _ _ rfl ⟨i, rfl⟩ hu]
+      simp [TSt, finish, hsp, h2, h3, hle']
+
+theorem run_group_eq (R : Str) (st : St) (i : Nat) :
+    run st i ('(' :: (R ++ [')'])) =
+      step (run (step st i '(') (i + 1) R) (i + 1 + R.length) ')' := by
+  simp only [run, run_append]
+
+mutual
+theorem run_node : ∀ (n : ATree), ValidNode n → ∀ (st : St) (i : Nat), DSt st i →
+    (DSt (run st i (renderNode n)) (i + (renderNode n).length) ∨ TSt (run st i (renderNode n))) ∧
+    finish (run st i (renderNode n)) (i + (renderNode n).length) = finish st i ++ toksNode i n
+  | .tag w, hv, st, i, h => by
+    simp only [renderNode, toksNode]
+    have := run_text w (by simpa [ValidNode] using hv) st i h
+    exact ⟨Or.inr this.1, this.2⟩
+  | .group kids, hv, st, i, h => by
+    have ih := run_list kids (by simpa [ValidNode] using hv)
+    have e : i + (renderNode (.group kids)).length = i + 1 + (renderList kids).length + 1 := by
+      simp [renderNode]; omega
+    rw [e]
+    simp only [renderNode, toksNode, run_group_eq]
+    obtain ⟨a1, a2⟩ := step_delim st i '(' (by decide) (Or.inl h)
+    obtain ⟨b1, b2⟩ := ih _ (i + 1) a1
+    obtain ⟨c1, c2⟩ := step_delim _ (i + 1 + (renderList kids).length) ')' (by decide) b1
+    refine ⟨Or.inl c1, ?_⟩
+    rw [c2, b2, a2]
+    simp
+theorem run_list : ∀ (l : List ATree), ValidList l → ∀ (st : St) (i : Nat), DSt st i →
+    (DSt (run st i (renderList l)) (i + (renderList l).length) ∨ TSt (run st i (renderList l))) ∧
+    finish (run st i (renderList l)) (i + (renderList l).length) = finish st i ++ toksList i l
+  | [], _, st, i, h => by
+    simp only [renderList, toksList, run, List.length_nil, Nat.add_zero, List.append_nil, and_true]
+    exact Or.inl h
+  | [n], hv, st, i, h => by
+    simp only [renderList, toksList]
+    exact run_node n (by simp only [ValidList] at hv; exact hv.1) st i h
+  | n :: m :: ns, hv, st, i, h => by
+    have hv' : ValidNode n ∧ ValidList (m :: ns) := by simpa only [ValidList] using hv
+    obtain ⟨a1, a2⟩ := run_node n hv'.1 st i h
+    obtain ⟨b1, b2⟩ := step_delim _ (i + (renderNode n).length) ',' (by decide) a1
+    obtain ⟨c1, c2⟩ := run_list (m :: ns) hv'.2 _ (i + (renderNode n).length + 1) b1
+    have e : i + (renderList (n :: m :: ns)).length =
+        i + (renderNode n).length + 1 + (renderList (m :: ns)).length := by
+      simp [renderList]; omega
+    have er : run st i (renderList (n :: m :: ns)) =
+        run (step (run st i (renderNode n)) (i + (renderNode n).length) ',')
+          (i + (renderNode n).length + 1) (renderList (m :: ns)) := by
+      simp only [renderList, run_append, run]
+    rw [e, er]
+    refine ⟨c1, ?_⟩
+    rw [c2, b2, a2]
+    simp [toksList]
+end
+
+theorem split_render (l : List ATree) (hv : ValidList l) : split (renderList l) = toksList 0 l := by
+  have := (run_list l hv {} 0 ⟨rfl, rfl, 0, rfl, Or.inl rfl⟩).2
+  simp only [Nat.zero_add] at this
+  unfold split finalSt
+  rw [this]
+  simp [finish]
+
+/-- text `u` occurs in `s` at offset `i` -/
+def At (s : Str) (i : Nat) (u : Str) : Prop := ∀ j c, u[j]? = some c → s[i + j]? = some c
+
+theorem at_cons (s : Str) (i : Nat) (c : Char) (u : Str) :
+    At s i (c :: u) ↔ s[i]? = some c ∧ At s (i + 1) u := by
+  constructor
+  · intro h
+    refine ⟨by simpa using h 0 c (by simp), ?_⟩
+    intro j x hx
+    have := h (j + 1) x (by simpa using hx)
+    rwa [show i + (j + 1) = i + 1 + j by omega] at this
+  · intro ⟨h1, h2⟩ j x hx
+    cases j with
+    | zero => simp at hx; subst hx; simpa using h1
+    | succ j =>
+      have := h2 j x (by simpa using hx)
+      rwa [show i + 1 + j = i + (j + 1) by omega] at this
+
+theorem at_append (s : Str) (i : Nat) (u v : Str) :
+    At s i (u ++ v) ↔ At s i u ∧ At s (i + u.length) v := by
+  induction u generalizing i with
+  | nil => simp [At]
+  | cons c cs ih =>
+    simp only [List.cons_append, at_cons, ih, List.length_cons]
+    rw [show i + 1 + cs.length = i + (cs.length + 1) by omega]
+    exact and_assoc.symm
+
+theorem at_self (s : Str) : At s 0 s := by intro j c h; simpa using h
+
+def addNode (ts : List Node × List Frame) (n : Node) : List Node × List Frame :=
+  match ts.2 with
+  | [] => (n :: ts.1, [])
+  | f :: fs => (ts.1, { f with kids := n :: f.kids } :: fs)
+
+theorem foldl_addNode_nil (nodes : List Node) : ∀ (top : List Node),
+    List.foldl addNode (top, []) nodes = (nodes.reverse ++ top, []) := by
+  induction nodes with
+  | nil => intro top; rfl
+  | cons n ns ih => intro top; simp [List.foldl_cons, addNode, ih]
+
+theorem foldl_addNode_cons (nodes : List Node) : ∀ (top : List Node) (f : Frame) (fs : List Frame),
+    List.foldl addNode (top, f :: fs) nodes =
+      (top, { f with kids := nodes.reverse ++ f.kids } :: fs) := by
+  induction nodes with
+  | nil => intro top f fs; rfl
+  | cons n ns ih => intro top f fs; simp [List.foldl_cons, addNode, ih]
+
+theorem portion_single (s : Str) (i : Nat) (c : Char) (h : s[i]? = some c) :
+    List.take 1 (List.drop i s) = [c] := by
+  rw [List.take_one, List.head?_drop, h]; rfl
+
+theorem stepTok_tag (s : Str) (top : List Node) (stack : List Frame) (a b : Nat) :
+    stepTok s top stack ⟨true, a, b⟩ = .ok (addNode (top, stack) (.tag a b)) := by
+  cases stack <;> simp [stepTok, addNode]
+
+theorem stepTok_open (s : Str) (top : List Node) (stack : List Frame) (i : Nat)
+    (h : s[i]? = some '(') :
+    stepTok s top stack ⟨false, i, i + 1⟩ = .ok (top, ⟨i, []⟩ :: stack) := by
+  have hd : delimIndex ['('] = 0 := by decide
+  simp [stepTok, portion_single s i '(' h, hd]
+
+theorem stepTok_comma (s : Str) (top : List Node) (stack : List Frame) (i : Nat)
+    (h : s[i]? = some ',') :
+    stepTok s top stack ⟨false, i, i + 1⟩ = .ok (top, stack) := by
+  have hd : delimIndex [','] = 0 := by decide
+  simp [stepTok, portion_single s i ',' h, hd]
+
+theorem stepTok_close (s : Str) (top : List Node) (f : Frame) (fs : List Frame) (i : Nat)
+    (h : s[i]? = some ')') :
+    stepTok s top (f :: fs) ⟨false, i, i + 1⟩ =
+      .ok (addNode (top, fs) (.group f.start (i + 1) f.kids.reverse)) := by
+  have hd : delimIndex [')'] = 0 := by decide
+  cases fs <;> simp [stepTok, portion_single s i ')' h, hd, addNode]
+
+theorem buildToks_cons_ok (s : Str) (top top' : List Node) (stack stack' : List Frame) (t : Token)
+    (ts : List Token) (h : stepTok s top stack t = .ok (top', stack')) :
+    buildToks s top stack (t :: ts) = buildToks s top' stack' ts := by
+  simp [buildToks, h]
+
+mutual
+theorem build_node : ∀ (n : ATree) (s : Str) (i : Nat), At s i (renderNode n) →
+    ∀ (top : List Node) (stack : List Frame) (rest : List Token),
+    buildToks s top stack (toksNode i n ++ rest) =
+      buildToks s (addNode (top, stack) (nodeOf i n)).1 (addNode (top, stack) (nodeOf i n)).2 rest
+  | .tag w, s, i, _, top, stack, rest => by
+    simp only [toksNode, nodeOf, List.cons_append, List.nil_append]
+    exact buildToks_cons_ok s _ _ _ _ _ _ (stepTok_tag s top stack _ _)
+  | .group kids, s, i, hat, top, stack, rest => by
+    simp only [renderNode, at_cons, at_append] at hat
+    obtain ⟨h1, h2, h3, _⟩ := hat
+    simp only [toksNode, nodeOf, List.cons_append, List.append_assoc, List.nil_append]
+    rw [buildToks_cons_ok s _ _ _ _ _ _ (stepTok_open s top stack i h1),
+      build_list kids s (i + 1) h2, foldl_addNode_cons,
+      buildToks_cons_ok s _ _ _ _ _ _ (stepTok_close s top _ stack _ h3)]
+    simp [addNode]
+theorem build_list : ∀ (l : List ATree) (s : Str) (i : Nat), At s i (renderList l) →
+    ∀ (top : List Node) (stack : List Frame) (rest : List Token),
+    buildToks s top stack (toksList i l ++ rest) =
+      buildToks s (List.foldl addNode (top, stack) (nodesOf i l)).1
+        (List.foldl addNode (top, stack) (nodesOf i l)).2 rest
+  | [], s, i, _, top, stack, rest => by simp [toksList, nodesOf]
+  | [n], s, i, hat, top, stack, rest => by
+    simp only [renderList] at hat
+    simp only [toksList, nodesOf, List.foldl_cons, List.foldl_nil]
+    exact build_node n s i hat top stack rest
+  | n :: m :: ns, s, i, hat, top, stack, rest => by
+    simp only [renderList, at_cons, at_append] at hat
+    obtain ⟨h1, h2, h3⟩ := hat
+    simp only [toksList, List.append_assoc, List.cons_append]
+    rw [build_node n s i h1,
+      buildToks_cons_ok s _ _ _ _ _ _ (stepTok_comma s _ _ _ h2),
+      build_list (m :: ns) s _ h3]
+    simp [nodesOf]
+end
+
+theorem build_render (l : List ATree) (hv : ValidList l) :
+    build (renderList l) = .ok (nodesOf 0 l) := by
+  unfold build
+  rw [split_render l hv]
+  have := build_list l (renderList l) 0 (at_self _) [] [] []
+  rw [List.append_nil] at this
+  rw [this, foldl_addNode_nil]
+  simp [buildToks]
+
+mutual
+/-- forget the spans: a tag becomes its text in the given form -/
+def formNode (form : Nat → Nat → Str) : Node → ATree
+  | .tag a b => .tag (form a b)
+  | .group _ _ kids => .group (formList form kids)
+def formList (form : Nat → Nat → Str) : List Node → List ATree
+  | [] => []
+  | n :: ns => formNode form n :: formList form ns
+end
+
+/-- forget the spans: a tag becomes its source slice (`org_tag`) -/
+abbrev absNode (s : Str) : Node → ATree := formNode (slice s)
+abbrev absList (s : Str) : List Node → List ATree := formList (slice s)
+
+mutual
+theorem print_form_node (form : Nat → Nat → Str) :
+    ∀ (n : Node), printNode form n = renderNode (formNode form n)
+  | .tag a b => by simp [printNode, formNode, renderNode]
+  | .group _ _ kids => by simp [printNode, formNode, renderNode, print_form_list form kids]
+theorem print_form_list (form : Nat → Nat → Str) :
+    ∀ (l : List Node), printList form l = renderList (formList form l)
+  | [] => by simp [printList, formList, renderList]
+  | [n] => by simp [printList, formList, renderList, print_form_node form n]
+  | n :: m :: ns => by
+    have := print_form_list form (m :: ns)
+    simp only [formList] at this
+    simp [printList, formList, renderList, print_form_node form n, this]
+end
+
+theorem at_slice (s : Str) (w : Str) : ∀ (i : Nat), At s i w → slice s i (i + w.length) = w := by
+  induction w with
+  | nil => intro i _; simp [slice]
+  | cons c u ih =>
+    intro i h
+    rw [at_cons] at h
+    rw [slice_split s i (i + 1) (i + (c :: u).length) (by omega) (by simp),
+      show i + (c :: u).length = i + 1 + u.length by simp; omega, ih (i + 1) h.2]
+    have : slice s i (i + 1) = [c] := by
+      unfold slice
+      rw [show i + 1 - i = 1 by omega]
+      exact portion_single s i c h.1
+    rw [this]; rfl
+
+mutual
+theorem abs_node (s : Str) : ∀ (n : ATree) (i : Nat), At s i (renderNode n) →
+    absNode s (nodeOf i n) = n
+  | .tag w, i, h => by
+    simp only [renderNode] at h
+    simp [nodeOf, formNode, at_slice s w i h]
+  | .group kids, i, h => by
+    simp only [renderNode, at_cons, at_append] at h
+    simp [nodeOf, formNode, abs_list s kids (i + 1) h.2.1]
+theorem abs_list (s : Str) : ∀ (l : List ATree) (i : Nat), At s i (renderList l) →
+    absList s (nodesOf i l) = l
+  | [], _, _ => by simp [nodesOf, formList]
+  | [n], i, h => by
+    simp only [renderList] at h
+    simp [nodesOf, formList, abs_node s n i h]
+  | n :: m :: ns, i, h => by
+    simp only [renderList, at_cons, at_append] at h
+    have := abs_list s (m :: ns) _ h.2.2
+    simp only [nodesOf, formList] at this ⊢
+    simp [abs_node s n i h.1, this]
+end
+
+
+theorem validList_iff (form : Nat → Nat → Str) (l : List Node) :
+    ValidList (formList form l) ↔ ∀ n ∈ l, ValidNode (formNode form n) := by
+  induction l with
+  | nil => simp [formList, ValidList]
+  | cons n ns ih => simp [formList, ValidList, ih]
+
+/-- the text of a tag token is a printable tag text -/
+theorem tagtoken_valid (s : Str) (t : Token) (h : TokOK s t) (htag : t.isTag = true) :
+    ValidText (slice s t.start t.stop) := by
+  obtain ⟨hlt, hle, hrest⟩ := h
+  simp only [htag, ↓reduceIte] at hrest
+  obtain ⟨h1, h2, h3⟩ := hrest
+  have hlen := slice_length s t.start t.stop hle
+  refine ⟨?_, ?_, ?_, ?_⟩
+  · intro e; rw [e] at hlen; simp at hlen; omega
+  · intro c hc
+    obtain ⟨j, hj⟩ := List.getElem?_of_mem hc
+    have hjl : j < t.stop - t.start := by
+      have := getElem?_lt_of_some hj; omega
+    rw [slice_getElem? s _ _ _ hjl] at hj
+    exact h1 (t.start + j) c (by omega) (by omega) hj
+  · intro e
+    rw [List.head?_eq_getElem?, slice_getElem? s _ _ 0 (by omega)] at e
+    exact h2 ' ' (by simpa using e) rfl
+  · intro e
+    rw [List.getLast?_eq_getElem?, hlen, slice_getElem? s _ _ _ (by omega),
+      show t.start + (t.stop - t.start - 1) = t.stop - 1 by omega] at e
+    exact h3 ' ' e rfl
+
+theorem stepTok_valid (s : Str) (t : Token) (top top' : List Node) (stack stack' : List Frame)
+    (ht : t.isTag = true → ValidText (slice s t.start t.stop))
+    (htop : ∀ n ∈ top, ValidNode (absNode s n))
+    (hst : ∀ f ∈ stack, ∀ n ∈ f.kids, ValidNode (absNode s n))
+    (h : stepTok s top stack t = .ok (top', stack')) :
+    (∀ n ∈ top', ValidNode (absNode s n)) ∧ (∀ f ∈ stack', ∀ n ∈ f.kids, ValidNode (absNode s n)) := by
+  have hg : ∀ (f : Frame) a b, (∀ n ∈ f.kids, ValidNode (absNode s n)) →
+      ValidNode (absNode s (.group a b f.kids.reverse)) := by
+    intro f a b hk
+    simp only [formNode, ValidNode]
+    exact (validList_iff _ _).mpr (fun n hn => hk n (by simpa using hn))
+  unfold stepTok at h
+  split at h
+  · rename_i htag
+    have hv : ValidNode (absNode s (.tag t.start t.stop)) := by
+      simp only [formNode, ValidNode]; exact ht htag
+    cases stack with
+    | nil =>
+      simp only [Except.ok.injEq, Prod.mk.injEq] at h
+      obtain ⟨rfl, rfl⟩ := h
+      exact ⟨by intro n hn; simp only [List.mem_cons] at hn; rcases hn with rfl | hn; exact hv; exact htop n hn,
+        by simp⟩
+    | cons f fs =>
+      simp only [Except.ok.injEq, Prod.mk.injEq] at h
+      obtain ⟨rfl, rfl⟩ := h
+      refine ⟨htop, ?_⟩
+      intro g hg'
+      simp only [List.mem_cons] at hg'
+      rcases hg' with rfl | hg'
+      · intro n hn
+        simp only [List.mem_cons] at hn
+        rcases hn with rfl | hn
+        · exact hv
+        · exact hst f (by simp) n hn
+      · exact hst g (by simp [hg'])
+  · simp only [] at h
+    split at h
+    · cases h
+    · split at h
+      · simp only [Except.ok.injEq, Prod.mk.injEq] at h
+        obtain ⟨rfl, rfl⟩ := h
+        refine ⟨htop, ?_⟩
+        intro g hg'
+        simp only [List.mem_cons] at hg'
+        rcases hg' with rfl | hg'
+        · simp
+        · exact hst g hg'
+      · split at h
+        · cases stack with
+          | nil => cases h
+          | cons f fs =>
+            have hgv := hg f f.start (t.start + delimIndex ((s.drop t.start).take (t.stop - t.start)) + 1)
+              (hst f (by simp))
+            cases fs with
+            | nil =>
+              simp only [Except.ok.injEq, Prod.mk.injEq] at h
+              obtain ⟨rfl, rfl⟩ := h
+              exact ⟨by intro n hn; simp only [List.mem_cons] at hn; rcases hn with rfl | hn; exact hgv; exact htop n hn,
+                by simp⟩
+            | cons f2 fs2 =>
+              simp only [Except.ok.injEq, Prod.mk.injEq] at h
+              obtain ⟨rfl, rfl⟩ := h
+              refine ⟨htop, ?_⟩
+              intro g hg'
+              simp only [List.mem_cons] at hg'
+              rcases hg' with rfl | hg'
+              · intro n hn
+                simp only [List.mem_cons] at hn
+                rcases hn with rfl | hn
+                · exact hgv
+                · exact hst f2 (by simp) n hn
+              · exact hst g (by simp [hg'])
+        · simp only [Except.ok.injEq, Prod.mk.injEq] at h
+          obtain ⟨rfl, rfl⟩ := h
+          exact ⟨htop, hst⟩
+
+theorem buildToks_valid (s : Str) (toks : List Token) : ∀ (top : List Node) (stack : List Frame),
+    (∀ t ∈ toks, TokOK s t) → (∀ n ∈ top, ValidNode (absNode s n)) →
+    (∀ f ∈ stack, ∀ n ∈ f.kids, ValidNode (absNode s n)) →
+    ∀ r, buildToks s top stack toks = .ok r → ∀ n ∈ r, ValidNode (absNode s n) := by
+  induction toks with
+  | nil =>
+    intro top stack _ htop _ r hr
+    cases stack with
+    | nil => simp [buildToks] at hr; subst hr; simpa using htop
+    | cons f fs => simp [buildToks] at hr
+  | cons t ts ih =>
+    intro top stack hok htop hst r hr
+    simp only [buildToks] at hr
+    cases hs : stepTok s top stack t with
+    | error e => simp [hs] at hr
+    | ok p =>
+      obtain ⟨top', stack'⟩ := p
+      simp only [hs] at hr
+      obtain ⟨a, b⟩ := stepTok_valid s t top top' stack stack'
+        (fun htag => tagtoken_valid s t (hok t (by simp)) htag) htop hst hs
+      exact ih top' stack' (fun u hu => hok u (by simp [hu])) a b r hr
+
+/-- every tag of the constructed tree has a printable text -/
+theorem construct_valid (s : Str) : ValidList (absList s (construct s)) := by
+  rw [validList_iff]
+  unfold construct
+  cases hb : build s with
+  | error e => simp
+  | ok r =>
+    exact buildToks_valid s (split s) [] [] (C02.tiling s).2 (by simp) (by simp) r hb
+
+namespace C02
+
+/-- **Round trip (original form).** For every forest `T` of tags and groups whose tag texts are
+non-empty, delimiter-free and not blank at either end, parsing the printed forest
+(children joined by ",", groups in "(" ")") gives exactly the tree of `T` with the spans of the
+printed text (`nodesOf`), whose tags' source slices are the texts (`absList … = T`); printing that tree
+in original form gives the text back, and parsing again is a fixpoint. -/
+theorem roundtrip_original (T : List ATree) (hv : ValidList T) :
+    construct (renderList T) = nodesOf 0 T ∧
+    absList (renderList T) (construct (renderList T)) = T ∧
+    printOrg (renderList T) (construct (renderList T)) = renderList T ∧
+    construct (printOrg (renderList T) (construct (renderList T))) = construct (renderList T) := by
+  have h1 : construct (renderList T) = nodesOf 0 T := by simp [construct, build_render T hv]
+  have h2 : absList (renderList T) (construct (renderList T)) = T := by
+    rw [h1]; exact abs_list _ T 0 (at_self _)
+  have h3 : printOrg (renderList T) (construct (renderList T)) = renderList T := by
+    unfold printOrg; rw [print_form_list]; exact congrArg renderList h2
+  exact ⟨h1, h2, h3, by rw [h3]⟩
+
+
+/-- **Round trip (any form).** Printing a tree with any tag form whose texts are printable (short,
+long, original…) and parsing the result gives the tree of the printed forest; its tags' source slices
+are the printed forms. -/
+theorem roundtrip_form (form : Nat → Nat → Str) (ns : List Node)
+    (hv : ValidList (formList form ns)) :
+    construct (printList form ns) = nodesOf 0 (formList form ns) ∧
+    absList (printList form ns) (construct (printList form ns)) = formList form ns ∧
+    printOrg (printList form ns) (construct (printList form ns)) = printList form ns := by
+  rw [print_form_list]
+  obtain ⟨h1, h2, h3, _⟩ := roundtrip_original _ hv
+  exact ⟨h1, h2, h3⟩
+
+/-- **Re-parse (original form), every text.** Let `p = str(HedString(s))` in original form. Parsing `p`
+gives a tree with the same shape and the same tag texts as the tree of `s`, and printing it gives `p`
+again. (For unbalanced `s` both trees are empty.) -/
+theorem reparse_original (s : Str) :
+    absList (printOrg s (construct s)) (construct (printOrg s (construct s))) =
+      absList s (construct s) ∧
+    printOrg (printOrg s (construct s)) (construct (printOrg s (construct s))) =
+      printOrg s (construct s) := by
+  obtain ⟨_, h2, h3⟩ := roundtrip_form (slice s) (construct s) (construct_valid s)
+  exact ⟨h2, h3⟩
+
+/-- printing in original form is `render` of the abstracted tree, for every tree -/
+theorem print_is_render (s : Str) (ns : List Node) :
+    printOrg s ns = renderList (absList s ns) := print_form_list _ ns
+
+def exT : List ATree :=
+  [.tag ['a', ' ', 'b'], .group [.tag ['c'], .group [], .group [.tag ['d'], .tag ['e']]], .tag ['f']]
+
+example : ValidList exT := by
+  simp [exT, ValidList, ValidNode, ValidText, isDelim]
+example : renderList exT = "a b,(c,(),(d,e)),f".toList := by decide
+example : construct (renderList exT) = nodesOf 0 exT :=
+  (roundtrip_original exT (by simp [exT, ValidList, ValidNode, ValidText, isDelim])).1
+example : (nodesOf 0 exT).length = 3 := by decide
+
+end C02
+
+end HedVerif
